@@ -41,7 +41,7 @@ CHECKS = {
         "category": "exploration",
         "design_ref": "DESIGN.md sections 4.3 (F5), 4.6",
         "technique": "deterministic simulation: seeded histories of code/JSON round trips and normalize over one program lineage, with serialization-artefact faults injected into the code object in transit (table permutations with operand renumbering, unreferenced entries, redundant EXTENDED_ARG, CO_NESTED, junk operand bytes; each gated by CPython's own dis/line reading) and benign transit shuffles of JSON text",
-        "text": "Seeded search over operation histories {normalize, code round trip, JSON round trip} of bounded length on real CPython 3.7-3.10, with artefact perturbations of the code object in transit and of the original; invariant after every step: the normalized state equals the lineage's first normal form (library ==). Sampling of histories and perturbations, not proof.",
+        "text": "Seeded search over operation histories {normalize, code round trip, JSON round trip} of bounded length on real CPython 3.7-3.10, with artefact perturbations of the code object in transit and of the original; invariant after every step: the normalized state equals the lineage's first normal form (library ==); sampled normal forms are also compared with the one a pristine second copy of the library computes (a canonical form cannot depend on what else the process normalized before; decoy lineages holding confusable look-alike constants are interleaved to prime any cache). Sampling of histories and perturbations, not proof.",
         "note": "Trusted: CPython's dis / co_lines / findlinestarts as the gate that a perturbed object is the same program; the harness's own bytecode reader/writer (sim/bytecode.py). A perturbed object that from_code refuses is counted inconclusive (C11 allows raising).",
     },
     "C07": {
@@ -57,7 +57,7 @@ CHECKS = {
         "category": "exploration",
         "design_ref": "DESIGN.md sections 4.3 (F6, F7), 4.5",
         "technique": "deterministic simulation: seeded construction routes (decode, normalize, code trip, JSON/pickle/marshal reload, recompile, leaf-by-leaf clone = identity loss; confusable twin programs) feeding a pool whose every pair and triple is checked against the value contract and a strict to_code() fingerprint partition; complete confusable-constant table cross-checked against CPython's _PyCode_ConstantKey",
-        "text": "Seeded search over routes by which equal (or confusably different) CodeData/Constant values come to exist in one process - where object identity of constants, the hidden state the hash/eq contract depends on, differs - on real CPython 3.7-3.10 under seeded hash seeds; every pair/triple in the pool is checked for hashability, equivalence-relation laws, equal=>equal-hash and set/dict behaviour, == versus the strict fingerprint of to_code(), and immutability. Sampling of routes and programs; the finite confusables table is enumerated completely.",
+        "text": "Seeded search over routes by which equal (or confusably different) CodeData/Constant values come to exist in one process - where object identity of constants, the hidden state the hash/eq contract depends on, differs - on real CPython 3.7-3.10 under seeded hash seeds; every pair/triple in the pool is checked for hashability, equivalence-relation laws, equal=>equal-hash and set/dict behaviour, == versus the strict fingerprint of to_code(), and immutability; create-use-drop histories (values dropped before the next is built, compared with long-lived clones) expose identity-keyed caches. Sampling of routes and programs; the finite confusables table is enumerated completely.",
         "note": "Trusted: strict fingerprints (sim/fp.py) as the reference partition, cross-checked on every constant pair against ctypes _PyCode_ConstantKey with NaNs interned (a disagreement is a harness error).",
     },
     "C11": {
@@ -73,7 +73,7 @@ CHECKS = {
         "category": "exploration",
         "design_ref": "DESIGN.md section 4 (4.1-4.4, 4.7)",
         "technique": "deterministic simulation: seeded operation/fault histories on a pool of live objects with a shadow model; seeded line-level pre-emption of 2-3 real caller threads (baton passing under sys.settrace); abort injection at a seeded line; hostile-caller scribbling and aliasing",
-        "text": "Seeded search over histories of API calls on shared live objects in real CPython 3.7-3.10 processes, with aliasing, scribbling on returned documents, aborts at arbitrary lines and line-level pre-emption of concurrent callers; after every step a shadow model checks that argument snapshots never change, the n-th result equals the first and results share no mutable container with arguments or other documents. Sampling, not proof: the right level for a purity claim over all call sequences of a library with one process-global cache and caller-owned mutable JSON.",
+        "text": "Seeded search over histories of API calls on shared live objects in real CPython 3.7-3.10 processes, with aliasing, scribbling on returned documents, aborts at arbitrary lines and line-level pre-emption of concurrent callers; after every step a shadow model checks that argument snapshots never change, the n-th result equals the first, results share no mutable container with arguments or other documents, and (sampled) the result equals what a pristine second copy of the library - fresh module-level state, no history - returns for an equal argument. Sampling, not proof: the right level for a purity claim over all call sequences of a library with one process-global cache and caller-owned mutable JSON.",
         "note": "Trusted: the harness's structural fingerprints (sim/fp.py), CPython's immutability of code objects and str, sys.settrace line events as pre-emption points (C-level atomicity not subdivided). Interpreters run without -O.",
     },
 }
